@@ -1,6 +1,7 @@
 package main
 
 import (
+	"go/types"
 	"go/token"
 	"golang.org/x/tools/go/ssa"
 	"fmt"
@@ -41,7 +42,7 @@ func init() {
 		ID: "C08",
 		Explanation: "Decides the absence of the enumerable nondeterminism sources on paths that produce output or diagnostics (necessary conditions of byte-identical builds, not the behaviour): R1 every `range` over a map in non-test code is order-insensitive (commutative body, collect-then-sort, located-diagnostics-only) or a reviewed entry; R2 goroutines deliver results by pre-assigned index or into sorted collections, never by completion order; R3 sort comparators and hash inputs never use unstable source indices; R4 clock/random/environment reads occur only at the reviewed owner sites; R5 no multi-way select on build paths; R6 no location-less diagnostic is logged from concurrently running goroutines. NOT covered: totality of sort comparators, absolute-path independence (paths are run-time values), determinism of plugin code.",
 		Run: func(p *Prog, tier string) []*RuleResult {
-			return []*RuleResult{c08MapOrder(p), c08GoroutineOrder(p)}
+			return []*RuleResult{c08MapOrder(p), c08GoroutineOrder(p), c08UnstableKeys(p), c08Ambient(p), c08Select(p), c08LoggerOrder(p)}
 		},
 	})
 }
@@ -360,4 +361,329 @@ func guardedExc(p *Prog, r *RuleResult, t ExcTable, key string) (bool, string) {
 	}
 	r.CheckExc(t, key)
 	return true, ""
+}
+
+var c08UnstableExceptions = ExcTable{
+	"js_parser.(scopeMemberArray).Less ast.Ref.SourceIndex": "parse-time sort of one file's scope members: every Ref has the file's own source index, so the comparison always ties on it and InnerIndex decides",
+}
+
+func c08UnstableKeys(p *Prog) *RuleResult {
+	r := NewRule("C08/R3 unstable-key", "sort comparators and hash inputs never use source indices (assigned in goroutine completion order); only StableSourceIndices may order")
+	// (a) comparators
+	for _, fn := range p.ModuleFuncs() {
+		isCmp := fn.Name() == "Less" && fn.Signature.Recv() != nil
+		if !isCmp && fn.Parent() != nil {
+			eachInstr(fn.Parent(), func(b *ssa.BasicBlock, in ssa.Instruction) {
+				if c, ok := in.(ssa.CallInstruction); ok {
+					n := calleeFullName(c)
+					if strings.HasPrefix(n, "sort.Slice") || strings.HasPrefix(n, "slices.Sort") {
+						for _, a := range c.Common().Args {
+							if mc, ok := a.(*ssa.MakeClosure); ok && mc.Fn == fn {
+								isCmp = true
+							}
+						}
+					}
+				}
+			})
+		}
+		if !isCmp {
+			continue
+		}
+		r.Instances++
+		bad := map[string]token.Pos{}
+		for _, f := range withClosures(fn) {
+			eachInstr(f, func(b *ssa.BasicBlock, in ssa.Instruction) {
+				switch x := in.(type) {
+				case *ssa.FieldAddr:
+					if o, n := namedTypeName(x.X.Type()), fieldAddrName(x); unstableIndexField(o, n) {
+						bad[o+"."+n] = x.Pos()
+					}
+				case *ssa.Field:
+					if o, n := namedTypeName(x.X.Type()), fieldValName(x); unstableIndexField(o, n) {
+						bad[o+"."+n] = x.Pos()
+					}
+				}
+			})
+		}
+		if len(bad) == 0 {
+			r.OK(FuncName(fn)+" comparator", true, "reads no source-index field")
+			continue
+		}
+		for f, pos := range bad {
+			key := FuncName(fn) + " " + f
+			if !r.CheckExc(c08UnstableExceptions, key) {
+				r.Fail(key, p.Pos(pos), "sort comparator orders by the unstable source index field "+f)
+			}
+		}
+	}
+	// (b) hash inputs in the linker
+	for _, s := range []string{"linker.hashWriteUint32", "linker.hashWriteLengthPrefixed"} {
+		r.Anchor(s, p.FindFunc(s) != nil)
+	}
+	for _, fn := range p.ModuleFuncs() {
+		if pkgPathOf(fn) != modPath+"/internal/linker" && pkgPathOf(fn) != modPath+"/internal/bundler" {
+			continue
+		}
+		eachInstr(fn, func(b *ssa.BasicBlock, in ssa.Instruction) {
+			c, ok := in.(*ssa.Call)
+			if !ok {
+				return
+			}
+			n := calleeFullName(c)
+			isHash := n == modPath+"/internal/linker.hashWriteUint32" || n == modPath+"/internal/linker.hashWriteLengthPrefixed" || n == "invoke (hash.Hash).Write" || strings.HasSuffix(n, "xxhash.Digest).Write")
+			if !isHash || strings.HasPrefix(fn.Name(), "hashWrite") {
+				return
+			}
+			r.Instances++
+			args := c.Call.Args
+			key := FuncName(fn) + " hash input"
+			found := ""
+			for _, a := range args[len(args)-1:] {
+				backSlice(a, func(v ssa.Value) bool {
+					switch x := v.(type) {
+					case *ssa.FieldAddr:
+						if o, n := namedTypeName(x.X.Type()), fieldAddrName(x); unstableIndexField(o, n) {
+							found = o + "." + n
+						}
+					case *ssa.Field:
+						if o, n := namedTypeName(x.X.Type()), fieldValName(x); unstableIndexField(o, n) {
+							found = o + "." + n
+						}
+					case *ssa.IndexAddr:
+						return false // indexing by a source index selects data; the index itself is not hashed
+					case *ssa.Lookup:
+						return false
+					}
+					return true
+				})
+			}
+			if found == "" {
+				r.OK(key+" @"+fmt.Sprint(len(r.Samples)), false, "")
+			} else {
+				r.Fail(key+" "+found, p.Pos(c.Pos()), "an unstable source index ("+found+") flows into a chunk hash")
+			}
+		})
+	}
+	r.Floor(20)
+	r.StaleCheck(c08UnstableExceptions)
+	return r
+}
+
+func isAmbient(n string) bool {
+	switch n {
+	case "time.Now", "time.Since", "time.Until", "os.Getenv", "os.LookupEnv", "os.Environ", "os.Getpid", "os.Getppid", "os.Hostname", "os.Getuid",
+		"runtime.NumCPU", "runtime.GOMAXPROCS", "os.UserHomeDir", "os.TempDir", "os.Executable":
+		return true
+	}
+	return strings.HasPrefix(n, "math/rand.") || strings.HasPrefix(n, "crypto/rand.") || strings.HasPrefix(n, "(*math/rand.Rand).") || strings.HasPrefix(n, "math/rand/v2.")
+}
+
+var c08AmbientOwners = ExcTable{
+	"bundler.generateUniqueKeyPrefix math/rand.Read": "unique-key prefix for placeholders; placeholders never reach hashes or final bytes (C18/R3)",
+	"bundler.generateUniqueKeyPrefix math/rand.Seed": "unique-key prefix for placeholders; placeholders never reach hashes or final bytes (C18/R3)",
+	"bundler.generateUniqueKeyPrefix time.Now":       "seed of the unique-key prefix",
+	"cmd/esbuild.init$1 os.LookupEnv":                "CLI: NO_COLOR / terminal detection, presentation only",
+	"cmd/esbuild.main$1 time.Now":                    "CLI: timing summary, presentation only",
+	"cmd/esbuild.main$1 time.Since":                  "CLI: timing summary, presentation only",
+	"fs.modKey time.Now":                             "mod-key safety gap: a file modified within the last seconds is treated as having no usable mod key (falls back to content comparison); affects only change detection, never output bytes",
+	"helpers.(*Timer).Begin time.Now":                "--timing instrumentation, logged only",
+	"helpers.(*Timer).End time.Now":                  "--timing instrumentation, logged only",
+	"logger.PrintSummary$1 time.Since":               "CLI summary ('Done in 5ms'), terminal only",
+	"logger.hasNoColorEnvironmentVariable$1 os.LookupEnv": "NO_COLOR: terminal colours only",
+	"logger.isProbablyWindowsCommandPrompt os.LookupEnv":  "WT_SESSION: terminal glyph choice only",
+	"pkg/api.(*apiHandler).ServeHTTP time.Now":       "serve mode request log timing",
+	"pkg/api.(*apiHandler).ServeHTTP time.Since":     "serve mode request log timing",
+	"pkg/api.(*apiHandler).serveEventStream time.Since": "serve mode request log timing",
+	"pkg/api.(*watcher).tryToFindDirtyPath math/rand.Int31n": "watch mode deliberately shuffles the scan order",
+	"pkg/api.(*watcher).tryToFindDirtyPath math/rand.Seed":   "watch mode deliberately shuffles the scan order",
+	"pkg/api.(*watcher).tryToFindDirtyPath time.Now":         "seed of the watch-mode shuffle",
+	"pkg/api.Build time.Now":                         "summary timing (LogLevel info), presentation only",
+	"pkg/api.printSummary os.LookupEnv":              "npm_config_user_agent: whether to print the summary table under yarn 1; presentation only",
+	"pkg/cli.runImpl os.LookupEnv":                   "NODE_PATH is an explicit, documented input of the CLI (part of 'the same options')",
+}
+
+func c08Ambient(p *Prog) *RuleResult {
+	r := NewRule("C08/R4 ambient-sources", "clock, random, environment and host queries occur only at the reviewed owner sites; none of them is on a path that computes output bytes or diagnostics")
+	sites := p.sitesOf(isAmbient)
+	for _, s := range sites {
+		r.Instances++
+		key := FuncName(s.Caller) + " " + s.Callee
+		if !r.CheckExc(c08AmbientOwners, key) {
+			r.Fail(key, p.Pos(s.Instr.Pos()), "new ambient nondeterminism source ("+s.Callee+") outside the reviewed owner table")
+		}
+	}
+	for _, s := range p.funcValueRefs(isAmbient) {
+		r.Instances++
+		r.Fail(FuncName(s.Caller)+" value "+s.Callee, p.Pos(s.Caller.Pos()), "ambient source used as a function value")
+	}
+	r.Floor(15)
+	r.StaleCheck(c08AmbientOwners)
+	return r
+}
+
+func c08Select(p *Prog) *RuleResult {
+	r := NewRule("C08/R5 select-order", "no select statement with more than one communication case in internal/ packages (Go picks a ready case at random)")
+	nsel := 0
+	for _, fn := range p.ModuleFuncs() {
+		eachInstr(fn, func(b *ssa.BasicBlock, in ssa.Instruction) {
+			s, ok := in.(*ssa.Select)
+			if !ok {
+				return
+			}
+			nsel++
+			r.Instances++
+			key := FuncName(fn) + " select"
+			if len(s.States) <= 1 {
+				r.OK(key, false, "")
+				return
+			}
+			if strings.Contains(pkgPathOf(fn), "/internal/") {
+				r.Fail(key, p.Pos(s.Pos()), "multi-way select on a build path: ready cases are chosen at random")
+			} else {
+				r.OK(key+" (outside internal/: service/serve/watch plumbing)", true, "multi-way select outside the build pipeline")
+			}
+		})
+	}
+	// positive control: the engine must be able to see select statements at all
+	r.Note("select statements seen in module: %d", nsel)
+	if nsel == 0 {
+		r.Fail("C08/R5 positive-control", "-", "no select statement found in the whole module (cmd/esbuild and pkg/api contain several): matcher went blind")
+	}
+	return r
+}
+
+func c08LoggerOrder(p *Prog) *RuleResult {
+	r := NewRule("C08/R6 diagnostics-order", "messages reach API results only through a list sorted by a total order: SortableMsgs.Less compares kind and text when both locations are missing, every log's Done (and the stderr log's Peek) sorts before returning, and every conversion to public messages takes such a list")
+	less := p.FindFunc("logger.(SortableMsgs).Less")
+	if r.Anchor("logger.(SortableMsgs).Less", less != nil) {
+		r.Instances++
+		// under (aiLoc == nil) ∧ (ajLoc == nil) a string comparison (<) must be evaluated
+		okNil, okLoc := false, false
+		eachInstr(less, func(b *ssa.BasicBlock, in ssa.Instruction) {
+			bo, ok := in.(*ssa.BinOp)
+			if !ok || bo.Op != token.LSS {
+				return
+			}
+			if bt, ok := bo.X.Type().Underlying().(*types.Basic); !ok || bt.Kind() != types.String {
+				return
+			}
+			if _, n, ok := loadedField(bo.X); !ok || n != "Text" {
+				return
+			}
+			nilFacts := 0
+			nonNil := 0
+			for _, f := range factsAt(b) {
+				if c, ok := f.Cond.(*ssa.BinOp); ok && (c.Op == token.EQL || c.Op == token.NEQ) {
+					isNilCmp := false
+					if k, ok := c.Y.(*ssa.Const); ok && k.Value == nil {
+						isNilCmp = true
+					}
+					if !isNilCmp {
+						continue
+					}
+					eq := (c.Op == token.EQL) == f.True
+					if eq {
+						nilFacts++
+					} else {
+						nonNil++
+					}
+				}
+			}
+			if nilFacts >= 2 {
+				okNil = true
+			}
+			if nilFacts == 0 {
+				okLoc = true
+			}
+		})
+		if okNil {
+			r.OK("logger.(SortableMsgs).Less nil/nil", true, "Text is compared on the path where both locations are nil")
+		} else {
+			r.Fail("logger.(SortableMsgs).Less nil/nil", p.Pos(less.Pos()), "two messages without a location compare as equal: the stable sort keeps them in arrival order (goroutine completion / map iteration order)")
+		}
+		if okLoc {
+			r.OK("logger.(SortableMsgs).Less located", true, "Text is the final tie-breaker for located messages")
+		} else {
+			r.Fail("logger.(SortableMsgs).Less located", p.Pos(less.Pos()), "located messages are not ordered by text as the last key")
+		}
+	}
+	// (b) Done / Peek closures sort
+	for _, ctor := range []struct {
+		fn     string
+		fields []string
+	}{{"logger.NewStderrLog", []string{"Done", "Peek"}}, {"logger.NewDeferLog", []string{"Done"}}} {
+		fn := p.FindFunc(ctor.fn)
+		if !r.Anchor(ctor.fn, fn != nil) {
+			continue
+		}
+		for _, field := range ctor.fields {
+			r.Instances++
+			key := ctor.fn + " " + field
+			var clo *ssa.Function
+			eachInstr(fn, func(b *ssa.BasicBlock, in ssa.Instruction) {
+				st, ok := in.(*ssa.Store)
+				if !ok {
+					return
+				}
+				fa, ok := st.Addr.(*ssa.FieldAddr)
+				if !ok || fieldAddrName(fa) != field || namedTypeName(fa.X.Type()) != "logger.Log" {
+					return
+				}
+				if mc, ok := st.Val.(*ssa.MakeClosure); ok {
+					clo, _ = mc.Fn.(*ssa.Function)
+				}
+			})
+			if clo == nil {
+				r.Fail(key, p.Pos(fn.Pos()), "closure assigned to Log."+field+" not found")
+				continue
+			}
+			sorts := false
+			eachInstr(clo, func(b *ssa.BasicBlock, in ssa.Instruction) {
+				if c, ok := in.(ssa.CallInstruction); ok && (calleeFullName(c) == "sort.Stable" || calleeFullName(c) == "sort.Sort") {
+					sorts = true
+				}
+			})
+			if sorts {
+				r.OK(key, true, "sorts the message list before returning it")
+			} else {
+				r.Fail(key, p.Pos(clo.Pos()), "returns the message list without sorting it")
+			}
+		}
+	}
+	// (c) conversions to public messages
+	conv := p.FindFunc("pkg/api.convertMessagesToPublic")
+	if r.Anchor("pkg/api.convertMessagesToPublic", conv != nil) {
+		node := p.CallGraph().Nodes[conv]
+		for _, e := range node.In {
+			if e.Site == nil {
+				continue
+			}
+			r.Instances++
+			caller := e.Caller.Func
+			arg := e.Site.Common().Args[1]
+			key := FuncName(caller) + " convertMessagesToPublic"
+			src := ""
+			backSlice(arg, func(v ssa.Value) bool {
+				if c, ok := v.(*ssa.Call); ok {
+					if _, n, ok := loadedField(c.Call.Value); ok && (n == "Done" || n == "Peek") {
+						src = "log." + n + "()"
+						return false
+					}
+				}
+				return true
+			})
+			if src == "" {
+				// a literal single-message list is trivially ordered
+				if frzFreshValue(arg, 0) {
+					r.OK(key+" (literal)", false, "")
+					continue
+				}
+				r.Fail(key, p.Pos(e.Site.Pos()), "public messages are built from a list that does not come from log.Done()/log.Peek()")
+				continue
+			}
+			r.OK(key, true, "argument comes from "+src)
+		}
+	}
+	r.Floor(10)
+	return r
 }
